@@ -169,7 +169,12 @@ func scenarioC18(c *Ctx) {
 	for _, i := range []int{1, 2} {
 		h2 = append(h2, w.Msg(round, "event_signing_partial_sign_error_received", requests.SignatureProposalConfirmationErrorRequest{Error: requests.NewFSMError(fmt.Errorf("cannot sign")), ParticipantId: i, CreatedAt: T(310)}, w.Users[i], "", w.Users[i], NOWMARK, "sign-error"))
 	}
-	for _, j := range junkAt(w, round, NOWMARK, false) {
+	afterCancel := junkAt(w, round, NOWMARK, false)
+	// the cancelled batch's own proposal once more, byte for byte (its operation is still pending)
+	replayed := h2[len(h)]
+	replayed.Label = "replay-of-the-cancelled-proposal"
+	afterCancel = append(afterCancel, replayed)
+	for _, j := range afterCancel {
 		items := append(append([]Item{}, h2...), j)
 		label := j.Label
 		cases = append(cases, HistCase{Kind: "junk-after-cancel-" + label, User: me, Items: items, PrefixKey: round + "/cancelled", Check: func(o RunObs) {
@@ -179,9 +184,9 @@ func scenarioC18(c *Ctx) {
 					What: "a board message crashes the node: " + label, Replay: map[string]interface{}{"position": "after a cancelled batch", "input": label}})
 			}
 			if last == "err" && o.Before != o.After {
-				c.Fail(Failure{Property: "C18", Kind: "lazy-restart-on-rejected-message", Signature: map[string]interface{}{"kind": "lazy-restart-on-rejected-message"},
-					What:   "a rejected board message that finds the signing round in a cancelled state makes the node persist the restart to idle before it refuses the message",
-					Replay: map[string]interface{}{"position": "after a batch cancelled by failures", "input": label}})
+				c.Fail(Failure{Property: "C18", Kind: "rejected-input-changed-state", Signature: map[string]interface{}{"kind": "rejected-input-changed-state", "input": label},
+					What:   fmt.Sprintf("a rejected board message (%s) that finds the signing round in a cancelled state changed the node's durable state", label),
+					Replay: map[string]interface{}{"position": "after a batch cancelled by failures", "input": label, "before": o.Before, "after": o.After}})
 			}
 		}})
 	}
